@@ -158,7 +158,10 @@ def wwm(rng, with_wind=True, with_depth=True, order=None):
     ds = xr.Dataset()
     ds["AC"] = (("ocean_time", "nbstation", "nfreq", "ndir"), AC)
     ds["SPSIG"] = (("nfreq",), sig)
-    ds["SPDIR"] = (("ndir",), np.radians(th_from).astype("float32") if rng.random() < 0.4 else np.radians(th_from))
+    rad_ = np.radians(th_from)
+    if rng.random() < 0.25:
+        rad_ = np.where(rad_ > np.pi, rad_ - 2 * np.pi, rad_)        # a direction grid written on -pi..pi (same physical directions)
+    ds["SPDIR"] = (("ndir",), rad_.astype("float32") if rng.random() < 0.4 else rad_)
     ds = ds.assign_coords(ocean_time=_times(nt))
     u_ = rng.random()
     if u_ < 0.35:
